@@ -218,6 +218,74 @@ class Cas:
             if prot:
                 self.protecting[g] = prot
 
+    def _strict_reader_call(self, c: ast.AST) -> bool:
+        """`h(<target>)` where h is a function / method of this module whose every return that can be taken with the constant
+        arguments of this call is the text just read from its first parameter (open(p).read() / p.read_text()): a read of the
+        target. A helper that can hand back a constant instead (a tolerant reader: \"\" when the file cannot be read) is not."""
+        if not isinstance(c, ast.Call):
+            return False
+        f = c.func
+        mod = self.fa.fi.module
+        if isinstance(f, ast.Attribute) and isinstance(f.value, ast.Name) and f.value.id in ("self", "cls"):
+            q = f"{self.fa.fi.qualname.split('.')[0]}.{f.attr}"
+        elif isinstance(f, ast.Name):
+            q = f.id
+        else:
+            return False
+        if not mod.has_func(q) or not c.args or not (names_in(c.args[0]) & self.aliases):
+            return False
+        h = mod.func(q).node
+        pos = [a.arg for a in h.args.args if a.arg not in ("self", "cls")]  # type: ignore[attr-defined]
+        if not pos:
+            return False
+        bound: dict[str, object] = {}
+        dflt = h.args.defaults  # type: ignore[attr-defined]
+        for a, d in zip(h.args.args[len(h.args.args) - len(dflt):], dflt):  # type: ignore[attr-defined]
+            if isinstance(d, ast.Constant):
+                bound[a.arg] = d.value
+        for a, d in zip(h.args.kwonlyargs, h.args.kw_defaults):  # type: ignore[attr-defined]
+            if isinstance(d, ast.Constant):
+                bound[a.arg] = d.value
+        for i, a in enumerate(c.args[1:], start=1):
+            if i < len(pos):
+                bound.pop(pos[i], None)
+                if isinstance(a, ast.Constant):
+                    bound[pos[i]] = a.value
+        for k in c.keywords:
+            if k.arg is None:
+                return False
+            bound.pop(k.arg, None)
+            if isinstance(k.value, ast.Constant):
+                bound[k.arg] = k.value.value
+        p0 = pos[0]
+        handles = set()
+        for n in walk_no_nested(h):
+            if isinstance(n, ast.withitem) and isinstance(n.optional_vars, ast.Name) and isinstance(n.context_expr, ast.Call):
+                cc = n.context_expr
+                if ast.unparse(cc.func) in ("open", "io.open") and cc.args and is_name(cc.args[0], p0) and fsm.open_mode(cc, 1) in ("r", "rt", "rb"):
+                    handles.add(n.optional_vars.id)
+                if isinstance(cc.func, ast.Attribute) and cc.func.attr == "open" and p0 in names_in(cc.func.value) and fsm.open_mode(cc, 0) in ("r", "rt", "rb"):
+                    handles.add(n.optional_vars.id)
+        hcfg = CFG(h)
+        reads = 0
+        for rn in [x for x in hcfg.nodes if isinstance(x.ast, ast.Return)]:
+            v = rn.ast.value  # type: ignore[union-attr]
+            is_read = isinstance(v, ast.Call) and isinstance(v.func, ast.Attribute) and ((v.func.attr == "read" and isinstance(v.func.value, ast.Name) and v.func.value.id in handles and not v.args) or (v.func.attr in ("read_text", "read_bytes") and p0 in names_in(v.func.value)))
+            if is_read:
+                reads += 1
+                continue
+            # another return: it must be excluded by the constants this call passes
+            excluded = False
+            for t, val in branch_conditions(hcfg, rn.id):
+                tt, vv = t, val
+                while isinstance(tt, ast.UnaryOp) and isinstance(tt.op, ast.Not):
+                    tt, vv = tt.operand, not vv
+                if isinstance(tt, ast.Name) and tt.id in bound and bool(bound[tt.id]) != vv:
+                    excluded = True
+            if not excluded:
+                return False
+        return reads > 0
+
     def _read_vars(self) -> dict[str, list[ast.AST]]:
         """locals bound to the text read from the target: `with open(target) as f: v = f.read()` or v = path.read_text()"""
         fa = self.fa
@@ -237,6 +305,8 @@ class Cas:
                 if isinstance(c.func, ast.Attribute) and c.func.attr == "read" and isinstance(c.func.value, ast.Name) and c.func.value.id in handles and not c.args:
                     out.setdefault(n.targets[0].id, []).append(n)
                 if isinstance(c.func, ast.Attribute) and c.func.attr in ("read_text", "read_bytes") and names_in(c.func.value) & self.aliases:
+                    out.setdefault(n.targets[0].id, []).append(n)
+                if self._strict_reader_call(c):
                     out.setdefault(n.targets[0].id, []).append(n)
         return out
 
@@ -266,7 +336,7 @@ class Cas:
                 elif fname.endswith("compute_hash") and len(c.args) == 1 and isinstance(c.args[0], ast.Call) and isinstance(c.args[0].func, ast.Attribute):
                     # the text is read inside the hash call: compute_hash(<target>.read_text()) / compute_hash(<handle>.read())
                     r = c.args[0]
-                    direct = (r.func.attr == "read" and isinstance(r.func.value, ast.Name) and r.func.value.id in handles and not r.args) or (r.func.attr in ("read_text", "read_bytes") and bool(names_in(r.func.value) & self.aliases))
+                    direct = self._strict_reader_call(r) or (r.func.attr == "read" and isinstance(r.func.value, ast.Name) and r.func.value.id in handles and not r.args) or (r.func.attr in ("read_text", "read_bytes") and bool(names_in(r.func.value) & self.aliases))
                     if direct:
                         key = f"<read at line {n.lineno}>" if f"<read at line {n.lineno}>" not in reads else f"<read at line {n.lineno} #{len(reads)}>"  # (two copies of an inlined helper share line numbers)
                         reads.setdefault(key, []).append(n)
